@@ -149,3 +149,30 @@ def slices(ctx, rep):
                                 f"`{norm(call)[:70]}` does not hand the function the results selected by its own entry of `{sl_p}`: as soon as one "
                                 "transform of the stage maps a tape to zero or several tapes, results are routed to the wrong tape", line=call.lineno)
     rep.floor("applications of per-tape post-processing functions", n, 1)
+
+
+def routing_args(ctx, rep):
+    """R-C23-args: the module-level result-routing helpers are bound into post-processing closures (functools.partial) that a caller may
+    invoke more than once; they must not change the lists they are given (an in-place `stack.reverse()` flips the order on every call)."""
+    from ..effects import L, Engine, Spec
+
+    ix = ctx.index
+    rel = "pennylane/core/transforms/compile_pipeline.py"
+    rep.rule("R-C23-args", "_batch_postprocessing and _apply_postprocessing_stack do not mutate the sequences they receive (results, the per-tape functions, "
+             "the slices, the LIFO stack): they are partially applied into closures that are called once per execution")
+    eng = Engine(ix, Spec(name="argument list"), max_depth=2)
+    n = 0
+    for fname in ("_batch_postprocessing", "_apply_postprocessing_stack"):
+        f = ix.func(rel, fname)
+        rep.analysed(rel, fname)
+        for a in f.node.args.args + f.node.args.kwonlyargs:
+            n += 1
+            res = eng.analyse(f, {a.arg: {L}})
+            if not res.sinks:
+                rep.proved("R-C23-args", f"{rel}:{fname}({a.arg})", "only read")
+            for s_ in res.sinks:
+                rep.refuted("R-C23-args", rel, fname, s_.node,
+                            f"`{fname}` {s_.why.replace('owned by the input argument list', 'it was given')} (parameter `{a.arg}`): the function is bound into a "
+                            "post-processing closure with functools.partial, so a second call of the same closure sees the modified list and routes / orders "
+                            "the results differently", line=s_.line)
+    rep.floor("parameters of the result-routing helpers", n, 4)
